@@ -2,7 +2,13 @@
 _IND_FIELDS = ["self.id", "self.vector", "self.costs", "self.costs_signed", "self.state", "self.population_id",
                "self.algorithm_id", "self.parents", "self.children", "self.features", "self.custom"]
 _ALLOC_IND = ["$list.Real", "$len.Real", "$list.Ref", "$len.Ref", "Features.start_time", "Features.finish_time",
-              "Features.feasible", "Features.precision"]
+              "Features.feasible", "Features.precision", "$owner"]
+# ghost ownership: every design owns its vector / costs / costs_signed lists and its feature dict; two designs can therefore
+# never share one of them (this replaces pairwise-distinctness quantifiers, which make E-matching explode)
+define("owns", ["x"],
+       "owner(x.vector) is x and owner(x.costs) is x and owner(x.costs_signed) is x and owner(x.features) is x and "
+       "x.costs is not x.costs_signed and x.vector is not x.costs and x.vector is not x.costs_signed and "
+       "valid(x.vector) and valid(x.costs) and valid(x.costs_signed) and valid(x.features)")
 contract("Individual.add_features", abstract=True, params=["self"], props=["C05", "C06", "C09"],
          trusted="hook overridden by subclasses to add feature keys; no effect on the modelled fields",
          types={"self": "Ref[Individual]"}, ensures=[])
@@ -16,8 +22,9 @@ contract("artap.individual:Individual.__init__", props=["C05", "C06", "C09", "C1
                   "self.parents is not self.children",
                   "implies(is_none(vector), len(self.vector) == 0)",
                   "implies(not is_none(vector), seq_eq(self.vector, vector))",
-                  "self.features['feasible'] == 0", "self.features['precision'] == 7", "self.ghost_evals == 0"],
-         ghost={"after:self.custom = {}": ["self.ghost_evals = 0"]},
+                  "self.features['feasible'] == 0", "self.features['precision'] == 7", "self.ghost_evals == 0", "owns(self)"],
+         ghost={"after:self.custom = {}": ["self.ghost_evals = 0", "set_owner(self.vector, self)", "set_owner(self.costs, self)",
+                                           "set_owner(self.costs_signed, self)", "set_owner(self.features, self)"]},
          modifies=_IND_FIELDS + ["self.ghost_evals", "$cv.Individual.counter"], allocates=_ALLOC_IND)
 
 define("signed_image", ["x", "signs"],
@@ -26,9 +33,11 @@ define("signed_image", ["x", "signs"],
        "x.costs_signed[len(x.costs_signed) - 1] == (1 if x.features['feasible'] == 0 else 0)")
 contract("artap.individual:Individual.calc_signed_costs", props=["C05"], options={"mul": "uninterpreted"},
          types={"p_signs": "List[Int]"},
-         requires=["valid(self.features)", "valid(self.costs)", "valid(p_signs)"],
-         ensures=["signed_image(self, p_signs)", "fresh(self.costs_signed)", "unchanged(self.costs)"],
-         modifies=["self.costs_signed"], allocates=["$list.Real", "$len.Real"])
+         requires=["valid(self.features)", "valid(self.costs)", "valid(p_signs)", "valid(self.vector)"],
+         ensures=["signed_image(self, p_signs)", "fresh(self.costs_signed)", "unchanged(self.costs)",
+                  "owner(self.costs_signed) is self", "implies(old(owns(self)), owns(self))"],
+         ghost={"after:self.costs_signed.append": ["set_owner(self.costs_signed, self)"]},
+         modifies=["self.costs_signed"], allocates=["$list.Real", "$len.Real", "$owner"])
 
 # ---- random designs inside the box (C06 re-roll, C08, C12) ----------------------------------------------------------
 define("prec_eff", ["p"], "(p['precision'] if ('precision' in p and p['precision'] != 0) else 1e-12)")
@@ -93,7 +102,7 @@ define("job_wf", ["j", "x"],
        "valid(j.problem) and valid(j.problem.surrogate) and valid(j.problem.surrogate.problem) and "
        "j.problem.surrogate.problem is j.problem and valid(j.problem.failed) and valid(j.problem.parameters) and "
        "valid(j.problem.signs) and valid(j.problem.data_store) and params_wf(j.problem.parameters) and "
-       "valid(x.features) and valid(x.vector) and valid(x.costs) and valid(j.problem.surrogate.x_data) and "
+       "owns(x) and valid(j.problem.surrogate.x_data) and "
        "valid(j.problem.surrogate.y_data) and j.problem.surrogate.x_data is not j.problem.failed and "
        "j.problem.surrogate.y_data is not j.problem.failed and j.problem.surrogate.x_data is not j.problem.parameters and "
        "j.problem.surrogate.y_data is not j.problem.parameters and j.problem.failed is not j.problem.parameters")
@@ -135,6 +144,7 @@ contract("artap.job:Job.evaluate", props=["C05", "C06", "C09", "C11", "C14"], op
              "implies(old(individual.state) != 2, len(individual.costs) == self.problem.ghost_ncosts)",
              "implies(old(individual.state) != 2, fresh(individual.costs) and fresh(individual.costs_signed) and "
              "individual.costs is not individual.costs_signed)",
+             "owns(individual)",
          ],
          raises={
              # C06: five consecutive transient failures -> RuntimeError from the retry loop, five failed designs recorded
@@ -160,6 +170,8 @@ contract("artap.job:Job.evaluate", props=["C05", "C06", "C09", "C11", "C14"], op
                     "forall(lambda t: self.problem.failed[t].state == 3 and valid(self.problem.failed[t]) and fresh(self.problem.failed[t]), old(len(self.problem.failed)), len(self.problem.failed))",
                     ]},
          ghost={"after:individual.state = individual.State.EVALUATED": ["individual.ghost_evals = individual.ghost_evals + 1"],
+                "after:individual.costs = costs": ["set_owner(individual.costs, individual)"],
+                "after:individual.vector = VectorAndNumbers.gen_vector": ["set_owner(individual.vector, individual)"],
                 "after:self.problem.failed.append(failed_individual)": [
              # C06: the design recorded as failed carries the vector whose evaluation has just failed
              "assert implies(self.problem.surrogate.passthrough, seq_eq(failed_individual.vector, self.problem.ghost_last_vec)) and failed_individual.state == 3"]},
